@@ -55,8 +55,8 @@ func errOutcome(err error) string {
 
 // chunkReader delivers the input in the given chunk sizes (then the rest in one piece).
 type chunkReader struct {
-	data   []byte
-	chunks []int
+	data        []byte
+	chunks      []int
 	eofWithData bool
 }
 
